@@ -171,48 +171,54 @@ theorem UniqC.detachReceiver (h : UniqC w) (p s : Nat) : UniqC (detachReceiver w
 
 /-! ### irrelevant updates of a publisher / subscriber record -/
 
-theorem InvA.setP_irrel (h : InvA cfg np ns w) {p : Nat} {P P' : Pub} (hp : getP w p = some P)
-    (ha : P'.alive = P.alive) (he : P'.ex = P.ex) (hs : P'.slot = P.slot) (hc : P'.conns = P.conns) :
+/-- update of a publisher record: liveness flags may only go down consistently, the connection array may
+only lose entries that no attached connection needs -/
+theorem InvA.setP_gen (h : InvA cfg np ns w) {p : Nat} {P P' : Pub} (hp : getP w p = some P)
+    (ha : P'.alive = P.alive) (hdown : P'.ex = true → P.ex = true) (hpal : P'.alive = true → P'.ex = true)
+    (hs : P'.slot = P.slot) (hlen : P'.conns.length = P.conns.length)
+    (hsub : ∀ (i : Nat) b, P'.conns[i]? = some (some b) → P.conns[i]? = some (some b))
+    (hkeep : ∀ cn ∈ w.conns, cn.pid = p → cn.sAtt = true → ∀ i : Nat, P.conns[i]? = some (some cn.sid) →
+      P'.conns[i]? = some (some cn.sid)) :
     InvA cfg np ns (setP w p P') := by
-  have key : ∀ a Q, getP (setP w p P') a = some Q →
-      ∃ Q0, getP w a = some Q0 ∧ Q.alive = Q0.alive ∧ Q.ex = Q0.ex ∧ Q.slot = Q0.slot ∧ Q.conns = Q0.conns := by
+  have key : ∀ a Q, getP (setP w p P') a = some Q → (a = p ∧ Q = P') ∨ (a ≠ p ∧ getP w a = some Q) := by
     intro a Q hq
     rw [getP_setP] at hq
     by_cases hap : a = p
     · subst hap
       simp only [if_true, hp, Option.map_some, Option.some.injEq] at hq
-      subst hq
-      exact ⟨P, hp, ha, he, hs, hc⟩
+      exact Or.inl ⟨rfl, hq.symm⟩
     · rw [if_neg hap] at hq
-      exact ⟨Q, hq, rfl, rfl, rfl, rfl⟩
+      exact Or.inr ⟨hap, hq⟩
   have key2 : ∀ a Q0, getP w a = some Q0 →
-      ∃ Q, getP (setP w p P') a = some Q ∧ Q.alive = Q0.alive ∧ Q.ex = Q0.ex ∧ Q.slot = Q0.slot ∧ Q.conns = Q0.conns := by
+      ∃ Q, getP (setP w p P') a = some Q ∧ Q.alive = Q0.alive ∧ Q.slot = Q0.slot := by
     intro a Q0 hq
     rw [getP_setP]
     by_cases hap : a = p
     · subst hap
       rw [hp] at hq; cases hq
-      exact ⟨P', by simp [hp], ha, he, hs, hc⟩
+      exact ⟨P', by simp [hp], ha, hs⟩
     · rw [if_neg hap]
-      exact ⟨Q0, hq, rfl, rfl, rfl, rfl⟩
+      exact ⟨Q0, hq, rfl, rfl⟩
   constructor
   · exact h.cfgEq
   · exact h.uniqC
   · exact h.sregLen
   · intro i a hi
     obtain ⟨h1, Q0, h2, h3, h4⟩ := h.preg i a hi
-    obtain ⟨Q, hq, e1, e2, e3, e4⟩ := key2 a Q0 h2
+    obtain ⟨Q, hq, e1, e3⟩ := key2 a Q0 h2
     exact ⟨h1, Q, hq, e1 ▸ h3, e3 ▸ h4⟩
   · exact h.sreg
   · intro a Q hq hal
-    obtain ⟨Q0, h0, e1, e2, e3, e4⟩ := key a Q hq
-    have := h.palive a Q0 h0 (e1 ▸ hal)
-    rw [e2, e3]; exact this
+    rcases key a Q hq with ⟨rfl, rfl⟩ | ⟨_, h0⟩
+    · rw [hs]; exact ⟨hpal hal, (h.palive a P hp (ha ▸ hal)).2⟩
+    · exact h.palive a Q h0 hal
   · exact h.salive
   · exact h.sbuf
   · intro a Q hq
-    obtain ⟨Q0, h0, e1, e2, e3, e4⟩ := key a Q hq
-    rw [e4]; exact h.pconns a Q0 h0
+    rcases key a Q hq with ⟨rfl, rfl⟩ | ⟨_, h0⟩
+    · obtain ⟨h1, h2⟩ := h.pconns a P hp
+      exact ⟨hlen ▸ h1, fun i b hi => h2 i b (hsub i b hi)⟩
+    · exact h.pconns a Q h0
   · intro cn hcn
     obtain ⟨⟨Q0, h0⟩, hS⟩ := h.ends cn hcn
     obtain ⟨Q, hq, _⟩ := key2 _ Q0 h0
@@ -226,21 +232,39 @@ theorem InvA.setP_irrel (h : InvA cfg np ns w) {p : Nat} {P P' : Pub} (hp : getP
     exact ⟨h3, Q, hq⟩
   · intro cn hcn hsa
     obtain ⟨Q0, h0, i, hi⟩ := h.a2 cn hcn hsa
-    obtain ⟨Q, hq, e1, e2, e3, e4⟩ := key2 _ Q0 h0
-    exact ⟨Q, hq, i, e4 ▸ hi⟩
+    by_cases hap : cn.pid = p
+    · rw [hap] at h0 ⊢
+      rw [hp] at h0; cases h0
+      exact ⟨P', by simp [getP_setP, hp], i, hkeep cn hcn hap hsa i hi⟩
+    · refine ⟨Q0, ?_, i, hi⟩
+      rw [getP_setP, if_neg hap]; exact h0
   · intro a Q hq hex i s hi
-    obtain ⟨Q0, h0, e1, e2, e3, e4⟩ := key a Q hq
-    exact h.a2c a Q0 h0 (e2 ▸ hex) i s (e4 ▸ hi)
+    rcases key a Q hq with ⟨rfl, rfl⟩ | ⟨_, h0⟩
+    · exact h.a2c a P hp (hdown hex) i s (hsub i s hi)
+    · exact h.a2c a Q h0 hex i s hi
   · exact h.a3
   · intro cn hcn hsa Q S hq hS hex hal
-    obtain ⟨Q0, h0, e1, e2, e3, e4⟩ := key _ Q hq
-    exact h.virg cn hcn hsa Q0 S h0 hS (e2 ▸ hex) hal
+    rcases key _ Q hq with ⟨hap, rfl⟩ | ⟨_, h0⟩
+    · exact h.virg cn hcn hsa P S (hap ▸ hp) hS (hdown hex) hal
+    · exact h.virg cn hcn hsa Q S h0 hS hex hal
   · intro s S hS hal e he Q hq hqa
-    obtain ⟨Q0, h0, e1, e2, e3, e4⟩ := key _ Q hq
-    exact h.k2 s S hS hal e he Q0 h0 (e1 ▸ hqa)
+    rcases key _ Q hq with ⟨hap, rfl⟩ | ⟨_, h0⟩
+    · exact h.k2 s S hS hal e he P (hap ▸ hp) (ha ▸ hqa)
+    · exact h.k2 s S hS hal e he Q h0 hqa
   · exact h.l3
   · exact h.l4
   · exact h.clog
+  · intro s S hS e he
+    obtain ⟨h1, Q0, h0⟩ := h.gr s S hS e he
+    obtain ⟨Q, hq, _⟩ := key2 _ Q0 h0
+    exact ⟨h1, Q, hq⟩
+
+theorem InvA.setP_irrel (h : InvA cfg np ns w) {p : Nat} {P P' : Pub} (hp : getP w p = some P)
+    (ha : P'.alive = P.alive) (he : P'.ex = P.ex) (hs : P'.slot = P.slot) (hc : P'.conns = P.conns) :
+    InvA cfg np ns (setP w p P') := by
+  refine h.setP_gen hp ha (fun hx => he ▸ hx) (fun hx => ?_) hs (by rw [hc]) (fun i b hi => hc ▸ hi)
+    (fun cn _ _ _ i hi => hc ▸ hi)
+  rw [he]; exact (h.palive p P hp (ha ▸ hx)).1
 
 theorem InvA.setS_irrel (h : InvA cfg np ns w) {s : Nat} {S S' : Sub} (hp : getS w s = some S)
     (ha : S'.alive = S.alive) (he : S'.ex = S.ex) (hs : S'.slot = S.slot) (hb : S'.buffer = S.buffer)
@@ -319,6 +343,9 @@ theorem InvA.setS_irrel (h : InvA cfg np ns w) {s : Nat} {S S' : Sub} (hp : getS
     obtain ⟨Q0, h0, e1, e2, e3, e4, e5, e6, e7⟩ := key a Q hq
     rw [e6]; exact h.l4 a Q0 h0 hd (e7 ▸ hhd)
   · exact h.clog
+  · intro a Q hq e he
+    obtain ⟨Q0, h0, e1, e2, e3, e4, e5, e6, e7⟩ := key a Q hq
+    exact h.gr a Q0 h0 e (e6 ▸ he)
 
 /-! ### update of one connection that keeps the attachment flags -/
 
@@ -400,5 +427,6 @@ theorem InvA.setC_same (h : InvA cfg np ns w) {c x : Conn} (hg : getC w x.pid x.
     rcases mem_setC hcn with ⟨rfl, _⟩ | ⟨hm, _⟩
     · exact hlog
     · exact h.clog cn hm
+  · exact h.gr
 
 end Iox2.PubSub.C01P
